@@ -388,9 +388,11 @@ def run(ctx):
         for r in gbad2:
             if r["family"] in fams_bad:
                 what = r["bad"][0].splitlines()[0][:200]
-                kind = "stall" if what.startswith("STALL") else ("panic" if what.startswith("panic") else "no-wellformed-response")
+                kind = "stall" if what.startswith("STALL") else ("panic" if what.startswith("panic") else
+                                                                  ("stale-engine" if what.startswith("rule change after") else "no-wellformed-response"))
                 ctx.disagreement("gated:%s:%s" % (kind, r["family"]), {"family": r["family"], "round": r["round"], "bad": [b[:8000] for b in r["bad"]], "replies": r["replies"]},
-                                 "request parked in Upstream during admin op %s: %s" % (r["family"], what))
+                                 ("refresh worker parked in a list download during a list operation: %s" % what) if r.get("round", 0) >= 1000
+                                 else "request parked in Upstream during admin op %s: %s" % (r["family"], what))
         if not fams_bad:
             ctx.notes.append("gated failure not reproduced: %s" % sorted({r["family"] for r in gbad}))
     if gres["rc"] not in (0, 1) and "test timed out" in gres["log"]:
@@ -408,6 +410,9 @@ def run(ctx):
     parked = sum(r.get("parked", 0) for r in grows)
     if parked == 0 and not ctx.violations:
         raise vlib.Inconclusive("gated driver never parked a request in the upstream")
+    wparked = [r for r in grows if r.get("round", 0) >= 1000]
+    if (not wparked or not any(r.get("parked") for r in wparked)) and not ctx.violations:
+        raise vlib.Inconclusive("gated driver never parked the refresh worker in a list download")
     unrepro = [s["family"] for s in summaries if s.get("unreproduced_stall")]
     # Vacuity: every family must have executed queries and successful admin operations.
     for s in summaries:
@@ -434,6 +439,7 @@ def run(ctx):
         "families": {s["family"]: {k: s.get(k) for k in ("queries", "admin_ops", "races", "classes", "stalled")} for s in summaries},
         "lock_order": lo,
         "gated_interleavings": len(grows), "gated_requests_parked": parked,
+        "gated_refresh_worker_parked": sum(1 for r in wparked if r.get("parked")),
         "unreproduced_stalls": unrepro,
         "conflict_pairs": fams[0]["pairs"], "spec_families": spec_fams,
         "samples": [summaries[0], summaries[-1]],
